@@ -7,8 +7,6 @@ From TV Require Import Check.C02 Check.C03 Check.C04.
 
 Definition f6_case : case := (mkCase [4; 4; 4; 5; 4; 4; 5; 4; 7] [(0, 0, 8, 5120, [(G 0 1 1 640 640 0 0 0); (G 1 1 1 640 640 0 0 0); (G 2 1 1 640 0 0 0 0); (G 3 1 1 640 640 0 0 0); (G 4 1 1 640 640 0 0 0); (G 5 1 1 640 0 0 0 0); (G 6 1 1 640 640 0 0 0); (G 7 1 1 640 640 0 0 0)])] (0, 0, 1, 64, [(G 0 1 1 64 64 0 0 0)]) [(mkCall 0 0 false 0 false 0 [35] false [[(R 1280 0 0 3 0 0 3 0)]; [(R 1280 0 3 3 0 3 3 0)]; [(R 1280 0 6 2 0 6 2 0)]] 0 [] [(0, 2, 0, 0, 0); (0, 5, 0, 0, 0)] false); (mkCall 0 0 false 0 false 0 [1000] false [[(R 5120 0 0 8 0 0 8 0)]] 0 [] [] false); (mkCall 0 0 false 0 false 0 [65] false [[(R 3840 0 0 8 0 0 8 0)]] 0 [] [] false)]).
 Definition f7_case : case := (mkCase [4; 4; 4; 4; 4; 5; 4; 7] [(0, 0, 7, 320, [(G 0 1 1 64 64 0 0 0); (G 1 1 1 64 64 0 0 0); (G 2 1 1 64 64 0 0 0); (G 3 3 1 64 64 0 0 0); (G 6 1 1 64 64 0 0 0)])] (0, 0, 1, 64, [(G 0 1 1 64 64 0 0 0)]) [(mkCall 0 0 false 0 false 0 [2] false [[(R 256 0 0 6 0 0 4 0)]; [(R 64 0 6 1 0 4 1 0)]] 0 [] [] true); (mkCall 0 0 false 1 false 0 [2] false [[(R 320 0 0 7 0 0 5 0)]] 0 [] [] true); (mkCall 0 0 false 2 false 0 [2] false [[(R 256 0 0 6 0 0 4 0)]; [(R 64 0 6 1 0 4 1 0)]] 0 [] [] true)]).
-Definition f8_case : case := (mkCase [4; 4; 4; 4; 4; 4; 4; 5; 4; 4; 7] [(0, 0, 3, 192, [(G 0 1 1 64 64 0 0 0); (G 1 1 1 64 64 0 0 0); (G 2 1 1 64 64 0 0 0)]); (0, 3, 7, 448, [(G 3 1 1 64 64 0 0 0); (G 4 1 1 64 64 0 0 0); (G 5 1 1 64 64 0 0 0); (G 6 1 1 64 0 0 0 0); (G 7 1 1 64 64 0 0 0); (G 8 1 1 64 64 0 0 0); (G 9 1 1 64 64 0 0 0)])] (0, 0, 1, 64, [(G 0 1 1 64 64 0 0 0)]) [(mkCall 0 1 false 0 false 0 [0] false [[(R 64 0 0 10 2 0 1 0)]] 10 [] [] true); (mkCall 0 1 false 1 false 0 [0] false [[(R 64 0 0 10 2 0 1 0)]] 10 [] [] true); (mkCall 0 1 false 2 false 0 [0] false [[(R 64 0 0 10 2 0 1 0)]] 10 [] [] true); (mkCall 0 1 false 0 false 0 [1] false [[(R 64 0 0 10 2 0 1 0)]] 10 [] [] true); (mkCall 0 1 false 1 false 0 [1] false [[(R 64 0 0 10 2 0 1 0)]] 10 [] [] true); (mkCall 0 1 false 2 false 0 [1] false [[(R 64 0 0 10 2 0 1 0)]] 10 [] [] true); (mkCall 0 1 false 0 false 0 [2] false [[(R 64 0 0 1 0 0 1 0); (R 64 0 1 9 2 0 1 1)]] 9 [] [] true); (mkCall 0 1 false 1 false 0 [2] false [[(R 64 0 0 10 2 0 1 0)]] 10 [] [] true); (mkCall 0 1 false 2 false 0 [2] false [[(R 64 0 0 1 0 0 1 0); (R 64 0 1 9 2 0 1 1)]] 9 [] [] true); (mkCall 0 1 false 0 false 0 [3] false [[(R 128 0 0 2 0 0 2 0); (R 64 0 2 8 2 0 1 1)]] 8 [] [] true); (mkCall 0 1 false 1 false 0 [3] false [[(R 64 0 0 10 2 0 1 0)]] 10 [] [] true); (mkCall 0 1 false 2 false 0 [3] false [[(R 128 0 0 2 0 0 2 0); (R 64 0 2 8 2 0 1 1)]] 8 [] [] true); (mkCall 0 1 false 0 false 0 [4] false [[(R 192 0 0 3 0 0 3 0); (R 64 0 3 7 2 0 1 1)]] 7 [] [] true); (mkCall 0 1 false 1 false 0 [4] false [[(R 64 0 0 10 2 0 1 0)]] 10 [] [] true); (mkCall 0 1 false 2 false 0 [4] false [[(R 192 0 0 3 0 0 3 0); (R 64 0 3 7 2 0 1 1)]] 7 [] [] true); (mkCall 0 1 false 0 false 0 [5] false [[(R 192 0 0 3 0 0 3 0); (R 64 0 3 1 1 0 1 1); (R 64 0 4 6 2 0 1 2)]] 6 [] [] true); (mkCall 0 1 false 1 false 0 [5] false [[(R 64 0 0 10 2 0 1 0)]] 10 [] [] true); (mkCall 0 1 false 2 false 0 [5] false [[(R 192 0 0 3 0 0 3 0); (R 64 0 3 1 1 0 1 1); (R 64 0 4 6 2 0 1 2)]] 6 [] [] true); (mkCall 0 1 false 0 false 0 [6] false [[(R 192 0 0 3 0 0 3 0); (R 128 0 3 2 1 0 2 1); (R 64 0 5 5 2 0 1 2)]] 5 [] [] true); (mkCall 0 1 false 1 false 0 [6] false [[(R 192 0 0 3 0 0 3 0); (R 64 0 3 7 2 0 1 1)]] 7 [] [] true); (mkCall 0 1 false 2 false 0 [6] false [[(R 192 0 0 3 0 0 3 0); (R 128 0 3 2 1 0 2 1); (R 64 0 5 5 2 0 1 2)]] 5 [] [] true); (mkCall 0 1 false 0 false 0 [7] false [[(R 192 0 0 3 0 0 3 0); (R 192 0 3 4 1 0 4 1); (R 64 0 7 3 2 0 1 2)]] 3 [] [(1, 3, 0, 0, 0)] true); (mkCall 0 1 false 1 false 0 [7] false [[(R 192 0 0 3 0 0 3 0); (R 192 0 3 4 1 0 4 1); (R 64 0 7 3 2 0 1 2)]] 3 [] [(1, 3, 0, 0, 0)] true); (mkCall 0 1 false 2 false 0 [7] false [[(R 192 0 0 3 0 0 3 0); (R 192 0 3 4 1 0 4 1); (R 64 0 7 3 2 0 1 2)]] 3 [] [(1, 3, 0, 0, 0)] true); (mkCall 0 1 false 0 false 0 [8] false [[(R 192 0 0 3 0 0 3 0); (R 192 0 3 4 1 0 4 1); (R 64 0 7 3 2 0 1 2)]] 3 [] [(1, 3, 0, 0, 0)] true); (mkCall 0 1 false 1 false 0 [8] false [[(R 192 0 0 3 0 0 3 0); (R 192 0 3 4 1 0 4 1); (R 64 0 7 3 2 0 1 2)]] 3 [] [(1, 3, 0, 0, 0)] true); (mkCall 0 1 false 2 false 0 [8] false [[(R 192 0 0 3 0 0 3 0); (R 192 0 3 4 1 0 4 1); (R 64 0 7 3 2 0 1 2)]] 3 [] [(1, 3, 0, 0, 0)] true); (mkCall 0 1 false 0 false 0 [9] false [[(R 192 0 0 3 0 0 3 0); (R 320 0 3 5 1 0 5 1); (R 64 0 8 2 2 0 1 2)]] 2 [] [] true); (mkCall 0 1 false 1 false 0 [9] false [[(R 192 0 0 3 0 0 3 0); (R 192 0 3 4 1 0 4 1); (R 64 0 7 3 2 0 1 2)]] 3 [] [(1, 3, 0, 0, 0)] true); (mkCall 0 1 false 2 false 0 [9] false [[(R 192 0 0 3 0 0 3 0); (R 320 0 3 5 1 0 5 1); (R 64 0 8 2 2 0 1 2)]] 2 [] [] true); (mkCall 0 1 false 0 false 0 [10] false [[(R 192 0 0 3 0 0 3 0); (R 448 0 3 7 1 0 7 1)]] 0 [] [] true); (mkCall 0 1 false 1 false 0 [10] false [[(R 192 0 0 3 0 0 3 0); (R 448 0 3 7 1 0 7 1)]] 0 [] [] true); (mkCall 0 1 false 2 false 0 [10] false [[(R 192 0 0 3 0 0 3 0); (R 448 0 3 7 1 0 7 1)]] 0 [] [] true); (mkCall 0 1 false 0 false 0 [11] false [[(R 192 0 0 3 0 0 3 0); (R 448 0 3 7 1 0 7 1)]] 0 [] [] true); (mkCall 0 1 false 1 false 0 [11] false [[(R 192 0 0 3 0 0 3 0); (R 448 0 3 7 1 0 7 1)]] 0 [] [] true); (mkCall 0 1 false 2 false 0 [11] false [[(R 192 0 0 3 0 0 3 0); (R 448 0 3 7 1 0 7 1)]] 0 [] [] true)]).
-
 (* F6: one run "aa bb cc" wrapped at 35, then at 1000 (single-run fast path), then at 65, with the same []Output:
    the second call returns the whole run with Advance 5120 over glyphs that now sum to 3840 *)
 Theorem advance_is_sum_refuted :
@@ -21,9 +19,5 @@ Theorem greedy_refuted :
   case_wf f7_case = true /\ corr_ok f7_case = true /\ oracle_kinds f7_case c04_kind = [10%nat; 10%nat].
 Proof. vm_compute. repeat split. Qed.
 
-(* F8: runs "aaa" + "bbb ccc", TruncateAfterLines = 1, policy Never: at some width the line is "aaa" + truncator, ending at
-   rune 3 inside the UAX #14 segment "aaabbb " (C03); the same path makes text + truncator exceed the width (C04, seen by
-   the oracle on generated cases, e.g. runs "a"(2 px) + "a", width 3, truncator 2 px, TextContinues) *)
-Theorem line_end_allowed_refuted :
-  case_wf f8_case = true /\ corr_ok f8_case = true /\ existsb (Nat.eqb 11) (oracle_kinds f8_case c03_kind) = true.
-Proof. vm_compute. repeat split. Qed.
+(* F8 (truncated line = whole-run prefix) was repaired in shaping/wrapping.go (fix: a truncated line that cannot take its
+   first break candidate holds no unmeasured runs); its witness stays in the driver as a regression input. *)
